@@ -24,13 +24,13 @@ CHECKS = {
             "DESIGN.md section 5.5 and 6 C15"),
     "C03": (True,
             "Coq proofs, for an arbitrary glob matcher: an ignore file never changes the verdict of a path outside its directory (component-wise, "
-            "so test/ vs tests/), every deciding pattern (incl. negations) was stored for an ancestor directory of the path, nearest directory "
+            "so test/ vs tests/), the repaired match_path (trie walk by longest byte-prefix key) EQUALS the git-style reference walk for every filter with absolute keys and every absolute path, every deciding pattern (incl. negations) was stored for an ancestor directory of the path, nearest directory "
             "first / last line wins, verdicts invariant under any listing order that keeps per-directory order, add_file = new. The executable model of "
             "IgnoreFilter (trie as longest-byte-prefix lookup, gitignore add_line/strip/matched*, globset token semantics) is run against the real crates "
             "together with the git-style reference walk (3-way diff) on generated trees with prefix-related sibling names; repeated construction "
             "checks determinism. Two genuine defects were found this way and repaired (see known_findings.txt).",
             "Trusted: Coq kernel, harness; globset/ignore/radix_trie semantics are transcribed by hand and sampled. The equality model(code) = reference walk "
-            "is checked by the 3-way correspondence on every run, not yet proved in Coq. No axioms.",
+            "is proved (C03_match_path_is_spec) and additionally checked by the 3-way correspondence on every run. No axioms.",
             "Rocq/Coq proof (parametric in the matcher) + 3-way differential correspondence (code / model / git-style reference)",
             "DESIGN.md section 6 C03"),
     "C04": (True,
